@@ -114,9 +114,24 @@ def run_eop(job, res):
                 raise AssertionError("unusable")
         return Bad
 
+    # every third behaviour runs on the REAL table-reading database (files of tests/data/pole) instead of the synthetic one
+    import os
+    from beyond.dates.eop import SimpleEopDatabase
+    config.update({"eop": {"folder": os.path.join(job["repo"], "tests", "data", "pole"), "type": "all"}})
+    table = job.get("table", {})          # {mjd: [ut1_utc ticks, tai_utc]} read by the independent reader
+
+    def real():
+        class Real(SimpleEopDatabase):
+            def __init__(self):
+                made["n"] += 1
+                super().__init__()
+        return Real
+    covered_days = sorted(int(k) for k in table)
     kinds = set()
     for bi, beh in enumerate(job["eop_behaviours"]):
         hist, init_db = beh["hist"], beh["dbname0"]
+        use_real = bool(covered_days) and (bi % 3 == 0 or beh.get("real", False))
+        nget = 0
         names = {}
 
         def nm(n):
@@ -127,7 +142,7 @@ def run_eop(job, res):
         for k, act in enumerate(hist):
             data = {"hist": hist[: k + 1], "dbname0": init_db}
             if act["op"] == "register":
-                EopDb.register(good() if act["kind"] == "class_ok" else bad(), nm(act["name"]))
+                EopDb.register((real() if use_real else good()) if act["kind"] == "class_ok" else bad(), nm(act["name"]))
             elif act["op"] == "policy":
                 config.set("eop", "missing_policy", act["name"])
             elif act["op"] == "dbname":
@@ -136,10 +151,20 @@ def run_eop(job, res):
                 cap.records.clear()
                 before = made["n"]
                 mjd = 50003.5 if act["name"] == "covered" else 51000.25
+                want_vals = (0.25, 30.0)
+                if use_real:
+                    # covered days alternate; the uncovered day is always the same one (1973-01-01 is before the first line of finals.all)
+                    nget += 1
+                    if act["name"] == "covered":
+                        day = covered_days[nget % len(covered_days)]
+                        mjd = day + 0.3
+                        want_vals = (table[str(day)][0] / 1e7, float(table[str(day)][1]))
+                    else:
+                        mjd = 41683.0 + 0.1 * nget
                 try:
                     e = EopDb.get(mjd)
                     zeros = (e.x, e.y, e.dx, e.dy, e.deps, e.dpsi, e.lod, e.ut1_utc, e.tai_utc) == (0,) * 9
-                    vals = (e.ut1_utc, e.tai_utc) == (0.25, 30.0)
+                    vals = abs(e.ut1_utc - want_vals[0]) <= 1e-9 and e.tai_utc == want_vals[1]
                     warned = any(r.levelno >= logging.WARNING for r in cap.records)
                     got = "values" if vals else ("zeros+warn" if zeros and warned else "zeros" if zeros else "other")
                 except (EopError, KeyError):
